@@ -110,6 +110,8 @@ type loopInfo struct {
 	variant []string // variant values at head
 	invs    []*Clause
 	decs    []*Clause
+	frames  []*Clause
+	frameObjs []string
 }
 
 type frame struct {
